@@ -301,7 +301,12 @@ func runC13(c *Ctx, idx int, o *Obs) {
 		text   string
 		want   []*ref.Tree
 	}
-	docs := []docT{{"newick", utils.FORMAT_NEWICK, nw.String(), models}}
+	nwText := nw.String()
+	if r.Intn(5) == 0 {
+		nwText = strings.ReplaceAll(nwText, "\n", "\r\n") // a file written on Windows
+		o.Ev("newick_stream_crlf", 1)
+	}
+	docs := []docT{{"newick", utils.FORMAT_NEWICK, nwText, models}}
 	if nexusDoc != "" {
 		docs = append(docs, docT{"nexus", utils.FORMAT_NEXUS, nexusDoc, models})
 	}
